@@ -57,11 +57,31 @@
 (* Normalised quantities are kept as numerator/denominator pairs (den =    *)
 (* ub - lb, a power of two: the quotient is exact in binary64).            *)
 (*                                                                         *)
+(* OPTIONS OF IDF (how the formulation is built and started): Build takes, *)
+(* besides normalize_constraints, `eq` (start_at_equilibrium: the current  *)
+(* value of every coupling target becomes its value y*(x0) at the          *)
+(* multidisciplinary solution for the CURRENT design values x0 of the      *)
+(* design space - which differ from the default inputs of the              *)
+(* disciplines), `par` (n_processes: "seq" = 1, "thr" = 2 threads, "mp" =  *)
+(* 2 processes; the execution strategy changes NOTHING of what the         *)
+(* formulation exposes) and `bnd`, the bounds the user gave to the         *)
+(* coupling variables (design-space catalogue: "fin" both bounds on every  *)
+(* component, "open" no bound, "half" per component both / lower only /    *)
+(* upper only).  A component of a consistency constraint whose coupling    *)
+(* has no finite width cannot be divided by that width: its scale is then  *)
+(* UNSPECIFIED (`free`: any finite positive constant - the property only   *)
+(* says that the constraint vanishes exactly at the multidisciplinary      *)
+(* solution and that the derivatives are consistent).  Which option        *)
+(* combinations are enumerated for an instance is bounded by OptSel        *)
+(* (constants Eqs, Pars, Bnds, OptMod, MpMod).                             *)
+(*                                                                         *)
 (* INVARIANTS (the property clauses): SpacesExact, RejectExact,            *)
 (* MasksCover, SameValues, ConsistencyVanishes, ConsistentDerivatives,     *)
-(* EquilibriumConsistent, DOptAgrees, ResultsAreValues (a later evaluation *)
+(* StartsAtEquilibrium, ScalesDefined, DOptAgrees, ResultsAreValues (a     *)
+(* later evaluation                                                        *)
 (* does not change an earlier result), plus WellFormed / DyadicBounds /    *)
-(* OptimumKnown which justify the slice, and two deliberately FALSE claims *)
+(* OptimumKnown which justify the slice, and three deliberately FALSE      *)
+(* claims                                                                  *)
 (* (FalseClaim...) that TLC must refute (non-vacuity).                     *)
 (***************************************************************************)
 EXTENDS Integers, Sequences, FiniteSets, TLC, MatC17
@@ -72,11 +92,16 @@ CONSTANTS Topos,      \* topology names to enumerate
           Seeds,      \* seeds of the non-coupling blocks, constants, defaults, points
           Quads,      \* indices of the hand-written quadratic instances
           EmitMod, EmitRes,   \* a built case is printed iff hash % EmitMod \in EmitRes
-          Emit
+          Emit,
+          Eqs,        \* values of start_at_equilibrium to enumerate (subset of BOOLEAN)
+          Pars,       \* execution strategies of IDF to enumerate (subset of {"seq", "thr", "mp"})
+          Bnds,       \* bound variants of the coupling variables (subset of {"fin", "open", "half"})
+          OptMod,     \* an option combination other than the plain one is enumerated for 1 instance in OptMod
+          MpMod       \* ... and a multiprocessing one for 1 in OptMod * MpMod
 
 VARIABLES inst,    \* the instance (constant along a behaviour)
           phase,   \* "new" | "built" | "rejected"
-          form,    \* [F, gsv, norm]
+          form,    \* [F, gsv, norm, eq, par, bnd]
           res      \* what the formulation exposes (Build) ; EmptyRes otherwise
 vars == <<inst, phase, form, res>>
 
@@ -299,12 +324,15 @@ Partial(I, val, o, v) ==
 PRow(I, val, o, seq) == HCatAll(TLCEval([k \in 1..Len(seq) |-> Partial(I, val, o, seq[k])]))
 
 \* a function result: value, denominators (componentwise; 1 unless normalised), Jacobian block per variable
-Fn(v, d, j) == [val |-> v, den |-> d, jac |-> j]
+\* free[k]: the scale of component k is unspecified (any finite positive constant); den[k] = 1 there
+FnS(v, d, j, fr) == [val |-> v, den |-> d, jac |-> j, free |-> fr]
+Fn(v, d, j) == FnS(v, d, j, MkV(Len(v), LAMBDA k : FALSE))
 Ones(n) == MkV(n, LAMBDA k : 1)
 \* stack a non-empty sequence of function results over the variables vs
 Stack(rs, vs) ==
-  Fn(VecCat(TLCEval([k \in 1..Len(rs) |-> rs[k].val])), VecCat(TLCEval([k \in 1..Len(rs) |-> rs[k].den])),
-     TLCEval([v \in vs |-> VCatAll(TLCEval([k \in 1..Len(rs) |-> rs[k].jac[v]]))]))
+  FnS(VecCat(TLCEval([k \in 1..Len(rs) |-> rs[k].val])), VecCat(TLCEval([k \in 1..Len(rs) |-> rs[k].den])),
+      TLCEval([v \in vs |-> VCatAll(TLCEval([k \in 1..Len(rs) |-> rs[k].jac[v]]))]),
+      VecCat(TLCEval([k \in 1..Len(rs) |-> rs[k].free])))
 Split(I, M, o, seq) == TLCEval([v \in SeqSet(seq) |-> SubMat(M, 0, NRows(M), OffsetOf(I.size, seq, v), Sz(I, v))])
 
 \* inputs that are not couplings: from the point when the formulation optimises them, else the default
@@ -327,6 +355,19 @@ GSpace(I, gsv) == IF gsv = "full" THEN I.space
                   ELSE IF gsv = "nocpl" THEN Filter(I.space, SeqSet(I.space) \ CplI(I))
                   ELSE Filter(I.space, SeqSet(I.space) \ WeakC(I.D))
 Variants(I) == {"full"} \cup (IF I.C # <<>> THEN {"nocpl"} ELSE {}) \cup (IF WeakC(I.D) # {} /\ StrongC(I.D) # {} THEN {"noweak"} ELSE {})
+
+(* design-space catalogue, bounds of the COUPLING variables (the design variables keep their bounds):  *)
+(* "fin": both dyadic bounds of the instance on every component; "open": no bound at all; "half": per  *)
+(* component (by name, position and seed) both bounds, the lower one only or the upper one only.       *)
+BKind(I, v, k, bnd) == IF bnd = "fin" \/ v \notin CplI(I) THEN "both"
+                       ELSE IF bnd = "open" THEN "none"
+                       ELSE <<"lo", "hi", "both">>[((Idx(v) + k + I.key[4]) % 3) + 1]
+HasLb(I, v, k, bnd) == BKind(I, v, k, bnd) \in {"both", "lo"}
+HasUb(I, v, k, bnd) == BKind(I, v, k, bnd) \in {"both", "hi"}
+FiniteWidth(I, v, k, bnd) == BKind(I, v, k, bnd) = "both"
+BoundsOf(I, G, bnd) == TLCEval([v \in SeqSet(G) |->
+                          [haslb |-> MkV(Sz(I, v), LAMBDA k : HasLb(I, v, k, bnd)),
+                           hasub |-> MkV(Sz(I, v), LAMBDA k : HasUb(I, v, k, bnd))]])
 
 Read(I) == AllIns(I.D)
 Unused(I, G) == SeqSet(G) \ Read(I)
@@ -371,15 +412,24 @@ MaskOf(I, space, d) ==
 Masks(I, space) == TLCEval([d \in 1..Len(I.D) |-> MaskOf(I, space, d)])
 
 (* IDF(start_at_equilibrium): the current value of every coupling becomes its value at the       *)
-(* multidisciplinary solution for the current design variables (unspecified when that value is   *)
-(* outside the bounds of the coupling: inb)                                                      *)
-Equilibrium(I, G) ==
+(* multidisciplinary solution for the CURRENT design variables of the design space (unspecified  *)
+(* when that value is outside the bounds the coupling has: inb).  dfl: the couplings of the      *)
+(* multidisciplinary solution at the DEFAULT inputs of the disciplines - what the start is NOT   *)
+(* (FalseClaimEquilibriumOfTheDefaults), recorded so that the replay can count the cases where   *)
+(* the two differ.                                                                               *)
+Equilibrium(I, G, bnd) ==
   LET xp == TLCEval([v \in SeqSet(G) \ CplI(I) |-> I.cur[v]])
       sol == Solve(I, BaseVal(I, xp))
+      sold == Solve(I, BaseVal(I, <<>>))
       cur == TLCEval([v \in SeqSet(G) |-> IF v \in CplI(I) THEN sol[v] ELSE I.cur[v]])
-  IN  [inb |-> \A v \in CplI(I) : \A k \in 1..Sz(I, v) : (I.lb[v][k] <= cur[v][k] /\ cur[v][k] <= I.ub[v][k]),
-       cur |-> cur]
-NoEq == [inb |-> FALSE, cur |-> <<>>]
+  IN  [inb |-> \A v \in CplI(I) : \A k \in 1..Sz(I, v) :
+                  /\ (HasLb(I, v, k, bnd) => I.lb[v][k] <= cur[v][k])
+                  /\ (HasUb(I, v, k, bnd) => cur[v][k] <= I.ub[v][k]),
+       cur |-> cur,
+       dfl |-> TLCEval([v \in CplI(I) |-> sold[v]])]
+NoEq == [inb |-> FALSE, cur |-> <<>>, dfl |-> <<>>]
+\* the start point of the formulation: the current value of its design space after construction
+StartPoint(I, G, eq, bnd) == IF eq THEN Equilibrium(I, G, bnd).cur ELSE TLCEval([v \in SeqSet(G) |-> I.cur[v]])
 
 ----------------------------------------------------------------------------
 (* MDF *)
@@ -396,35 +446,41 @@ MDFPoint(I, X, xp) ==
        cons |-> UserCons(I, LAMBDA o : MDFFn(I, val, X, o), SeqSet(X)), ncc |-> 0]
 MDFCase(I, G) ==
   LET X == MDFSpace(I, G)
-  IN  [space |-> X, maydrop |-> {}, masks |-> Masks(I, X), eq |-> NoEq, subs |-> <<>>,
+  IN  [space |-> X, maydrop |-> {}, masks |-> Masks(I, X), eq |-> NoEq, subs |-> <<>>, bounds |-> <<>>, start |-> <<>>,
        pts |-> TLCEval([k \in 1..NPts |-> MDFPoint(I, X, XPt(I, k))])]
 
 (* IDF: pt assigns every variable of the space; inputs outside the space keep their default *)
 IDFFn(I, val, G, o) == Fn(EvalOut(I, val, o), Ones(Sz(I, o)), TLCEval([v \in SeqSet(G) |-> Partial(I, val, o, v)]))
 Producers(I) == SelectSeq([d \in 1..Len(I.D) |-> d], LAMBDA d : I.D[d].outs \cap CplI(I) # {})
-Consistency(I, val, G, norm, d) ==
+\* normalize_constraints: a component is divided by the width ub - lb of its coupling target when that width is
+\* finite; without a finite width its scale is unspecified (free)
+Consistency(I, val, G, norm, bnd, d) ==
   LET oc == Sorted(I.D[d].outs \cap CplI(I))
-      one(o) == Fn(VSub(EvalOut(I, val, o), val[o]),
-                   IF norm THEN VSub(I.ub[o], I.lb[o]) ELSE Ones(Sz(I, o)),
-                   TLCEval([v \in SeqSet(G) |-> IF v = o THEN MSub(Partial(I, val, o, v), Ident(Sz(I, o)))
-                                                ELSE Partial(I, val, o, v)]))
+      one(o) == FnS(VSub(EvalOut(I, val, o), val[o]),
+                    MkV(Sz(I, o), LAMBDA k : IF norm /\ FiniteWidth(I, o, k, bnd) THEN I.ub[o][k] - I.lb[o][k] ELSE 1),
+                    TLCEval([v \in SeqSet(G) |-> IF v = o THEN MSub(Partial(I, val, o, v), Ident(Sz(I, o)))
+                                                 ELSE Partial(I, val, o, v)]),
+                    MkV(Sz(I, o), LAMBDA k : norm /\ ~FiniteWidth(I, o, k, bnd)))
   IN  Stack(TLCEval([k \in 1..Len(oc) |-> one(oc[k])]), SeqSet(G))
-IDFPoint(I, G, norm, pt) ==
+IDFPoint(I, G, norm, bnd, pt) ==
   LET val == BaseVal(I, pt)
       pr == Producers(I)
   IN  [x |-> pt, obj |-> IDFFn(I, val, G, I.obj),
-       cons |-> TLCEval([k \in 1..Len(pr) |-> Consistency(I, val, G, norm, pr[k])])
+       cons |-> TLCEval([k \in 1..Len(pr) |-> Consistency(I, val, G, norm, bnd, pr[k])])
                 \o UserCons(I, LAMBDA o : IDFFn(I, val, G, o), SeqSet(G)),
        ncc |-> Len(pr)]
 \* the point of the IDF space above the design point xp, displaced by dl from the multidisciplinary solution
 IDFAt(I, G, xp, dl) ==
   LET sol == Shift(I, Solve(I, BaseVal(I, xp)), dl)
   IN  TLCEval([v \in SeqSet(G) |-> IF v \in CplI(I) THEN sol[v] ELSE xp[v]])
-IDFCase(I, G, norm) ==
-  [space |-> IDFSpace(I, G), maydrop |-> Unused(I, G), masks |-> Masks(I, IDFSpace(I, G)), eq |-> Equilibrium(I, G), subs |-> <<>>,
+\* (par does not appear: the execution strategy changes nothing of what the formulation exposes; eq only moves the
+\*  start point)
+IDFCase(I, G, norm, eq, bnd) ==
+  [space |-> IDFSpace(I, G), maydrop |-> Unused(I, G), masks |-> Masks(I, IDFSpace(I, G)), eq |-> Equilibrium(I, G, bnd),
+   subs |-> <<>>, bounds |-> BoundsOf(I, G, bnd), start |-> StartPoint(I, G, eq, bnd),
    pts |-> VCatAll(TLCEval([k \in 1..NPts |->
              LET ed == EmitDeltas(I, k)
-             IN  TLCEval([j \in 1..Len(ed) |-> IDFPoint(I, G, norm, IDFAt(I, G, XPt(I, k), Deltas(I)[ed[j]]))])]))]
+             IN  TLCEval([j \in 1..Len(ed) |-> IDFPoint(I, G, norm, bnd, IDFAt(I, G, XPt(I, k), Deltas(I)[ed[j]]))])]))]
 
 (* DOPT: forward propagation through the listing; st = [val, row], row[v][x] = d v / d x *)
 RECURSIVE Fwd(_, _, _, _)
@@ -450,7 +506,7 @@ DOptPoint(I, X, xp) ==
   IN  [x |-> Restrict(xp, SeqSet(X)), obj |-> F(I.obj), cons |-> UserCons(I, F, SeqSet(X)), ncc |-> 0]
 DOptCase(I, G) ==
   LET X == DOptSpace(I, G)
-  IN  [space |-> X, maydrop |-> {}, masks |-> Masks(I, X), eq |-> NoEq, subs |-> <<>>,
+  IN  [space |-> X, maydrop |-> {}, masks |-> Masks(I, X), eq |-> NoEq, subs |-> <<>>, bounds |-> <<>>, start |-> <<>>,
        pts |-> TLCEval([k \in 1..NPts |-> DOptPoint(I, X, XPt(I, k))])]
 
 (* BILEVEL (variable sets only): every discipline that has LOCAL design variables (read by no   *)
@@ -464,12 +520,13 @@ AllLocals(I, G) == UNION {SeqSet(Locals(I, G, d)) : d \in 1..Len(I.D)}
 BiLevelEnabled(I) == WeakC(I.D) = {} /\ StrongC(I.D) # {} /\ AllLocals(I, I.space) # {}
 BiLevelCase(I, G) ==
   [space |-> Filter(G, SeqSet(MDFSpace(I, G)) \ AllLocals(I, G)), maydrop |-> {}, masks |-> <<>>, eq |-> NoEq,
-   subs |-> TLCEval([d \in 1..Len(I.D) |-> Locals(I, G, d)]), pts |-> <<>>]
+   subs |-> TLCEval([d \in 1..Len(I.D) |-> Locals(I, G, d)]), bounds |-> <<>>, start |-> <<>>, pts |-> <<>>]
 
 ----------------------------------------------------------------------------
 (* behaviours                                                              *)
-EmptyRes == [space |-> <<>>, maydrop |-> {}, masks |-> <<>>, eq |-> NoEq, subs |-> <<>>, pts |-> <<>>]
-NoForm == [F |-> "-", gsv |-> "-", norm |-> FALSE]
+EmptyRes == [space |-> <<>>, maydrop |-> {}, masks |-> <<>>, eq |-> NoEq, subs |-> <<>>, bounds |-> <<>>, start |-> <<>>,
+             pts |-> <<>>]
+NoForm == [F |-> "-", gsv |-> "-", norm |-> FALSE, eq |-> FALSE, par |-> "seq", bnd |-> "fin"]
 
 Init ==
   /\ \/ \E t \in Topos, p \in Profiles :
@@ -486,15 +543,32 @@ Init ==
 Admissible(I, F, G) == IF F = "IDF" THEN IDFAdmissible(I, G) ELSE IF F = "DOPT" THEN DOptEnabled(I)
                        ELSE IF F = "BILEVEL" THEN BiLevelEnabled(I) ELSE TRUE
 
-Build(F, gsv, norm) ==
+(* which option combinations of IDF are enumerated for an instance: the plain one (started at the current *)
+(* value, sequential, bounded couplings) always, with and without normalisation; every other one for one  *)
+(* instance in OptMod (all of them when OptMod = 1), the multiprocessing ones for one in OptMod * MpMod;   *)
+(* the hand-written optimum instances take every sequential / threaded combination.                       *)
+KeyHash(k) == Idx(IF k[1] = "quad" THEN "a" ELSE "c") + k[2] * 3 + k[3] * 5 + k[4] * 7
+OptIdx(norm, eq, par, bnd) == (IF norm THEN 1 ELSE 0) + 2 * (IF eq THEN 1 ELSE 0)
+                              + 4 * (IF par = "seq" THEN 0 ELSE IF par = "thr" THEN 1 ELSE 2)
+                              + 12 * (IF bnd = "fin" THEN 0 ELSE IF bnd = "open" THEN 1 ELSE 2)
+OptSel(I, norm, eq, par, bnd) ==
+  LET i == OptIdx(norm, eq, par, bnd)
+      h == KeyHash(I.key) * 5 + i * 7 + (i \div 8) * 3
+  IN  \/ (~eq /\ par = "seq" /\ bnd = "fin")
+      \/ (I.hasopt /\ par # "mp")
+      \/ (h % OptMod = 0 /\ ((par = "mp") => ((h \div OptMod) % MpMod = 0)))
+
+Build(F, gsv, norm, eq, par, bnd) ==
   /\ phase = "new"
   /\ gsv \in Variants(inst)
-  /\ (norm => F = "IDF")
+  /\ ((F # "IDF") => (~norm /\ ~eq /\ par = "seq" /\ bnd = "fin"))
   /\ Admissible(inst, F, GSpace(inst, gsv))
+  /\ ((F = "IDF") => OptSel(inst, norm, eq, par, bnd))
+  /\ (eq => Equilibrium(inst, GSpace(inst, gsv), bnd).inb)
   /\ phase' = "built"
-  /\ form' = [F |-> F, gsv |-> gsv, norm |-> norm]
+  /\ form' = [F |-> F, gsv |-> gsv, norm |-> norm, eq |-> eq, par |-> par, bnd |-> bnd]
   /\ res' = (IF F = "MDF" THEN MDFCase(inst, GSpace(inst, gsv))
-             ELSE IF F = "IDF" THEN IDFCase(inst, GSpace(inst, gsv), norm)
+             ELSE IF F = "IDF" THEN IDFCase(inst, GSpace(inst, gsv), norm, eq, bnd)
              ELSE IF F = "BILEVEL" THEN BiLevelCase(inst, GSpace(inst, gsv))
              ELSE DOptCase(inst, GSpace(inst, gsv)))
   /\ UNCHANGED inst
@@ -504,12 +578,12 @@ Reject(F, gsv) ==
   /\ gsv \in Variants(inst)
   /\ ~Admissible(inst, F, GSpace(inst, gsv))
   /\ phase' = "rejected"
-  /\ form' = [F |-> F, gsv |-> gsv, norm |-> FALSE]
+  /\ form' = [NoForm EXCEPT !.F = F, !.gsv = gsv]
   /\ res' = EmptyRes
   /\ UNCHANGED inst
 
 Next == \E F \in {"MDF", "IDF", "DOPT", "BILEVEL"}, gsv \in {"full", "nocpl", "noweak"} :
-          \/ \E norm \in BOOLEAN : Build(F, gsv, norm)
+          \/ \E norm \in BOOLEAN, eq \in Eqs, par \in Pars, bnd \in Bnds : Build(F, gsv, norm, eq, par, bnd)
           \/ Reject(F, gsv)
 
 Spec == Init /\ [][Next]_vars
@@ -572,14 +646,41 @@ MasksCover ==
         /\ hit \cup free = 0..(n - 1)
         /\ hit \cap free = {}
 
-(* EquilibriumConsistent: at the start point chosen by start_at_equilibrium every consistency    *)
-(* constraint vanishes and the design variables are untouched                                    *)
-EquilibriumConsistent ==
+(* StartsAtEquilibrium: the start point of IDF keeps the current design values; with              *)
+(* start_at_equilibrium its coupling targets are the multidisciplinary solution AT THOSE design   *)
+(* values: every consistency constraint vanishes at the start point, which respects the bounds    *)
+(* the couplings have; without the option the design space is left as the user gave it.           *)
+StartsAtEquilibrium ==
   (phase = "built" /\ form.F = "IDF") =>
     LET G == GSpace(inst, form.gsv)
-        p == IDFPoint(inst, G, form.norm, res.eq.cur)
-    IN  /\ AllZeroC(p)
-        /\ \A v \in SeqSet(G) \ CplI(inst) : res.eq.cur[v] = inst.cur[v]
+        p == IDFPoint(inst, G, form.norm, form.bnd, res.start)
+        q == IDFPoint(inst, G, form.norm, form.bnd, res.eq.cur)
+    IN  /\ DOMAIN res.start = SeqSet(G)
+        /\ (\A v \in SeqSet(G) \ CplI(inst) : (res.start[v] = inst.cur[v] /\ res.eq.cur[v] = inst.cur[v]))
+        /\ AllZeroC(q)
+        /\ (form.eq => (AllZeroC(p) /\ res.eq.inb /\ res.start = res.eq.cur))
+        /\ ((~form.eq) => (\A v \in SeqSet(G) : res.start[v] = inst.cur[v]))
+        /\ (\A v \in SeqSet(G) : \A k \in 1..inst.size[v] :
+              /\ (res.bounds[v].haslb[k] => inst.lb[v][k] <= res.start[v][k])
+              /\ (res.bounds[v].hasub[k] => res.start[v][k] <= inst.ub[v][k]))
+(* ScalesDefined: every component of every consistency constraint is divided by a finite positive *)
+(* constant: 1 without normalize_constraints, the width of its coupling target when that width is *)
+(* finite, unspecified (free) otherwise; the design variables always keep both bounds.            *)
+ScalesDefined ==
+  (phase = "built" /\ form.F = "IDF") =>
+    /\ (\A k \in 1..Len(res.pts) : \A c \in 1..Len(res.pts[k].cons) :
+          LET f == res.pts[k].cons[c]
+          IN  /\ Len(f.den) = Len(f.val) /\ Len(f.free) = Len(f.val)
+              /\ (\A r \in 1..Len(f.val) :
+                    /\ f.den[r] > 0
+                    /\ (f.free[r] => (form.norm /\ form.bnd # "fin" /\ c <= res.pts[k].ncc /\ f.den[r] = 1))
+                    /\ ((~form.norm \/ c > res.pts[k].ncc) => (f.den[r] = 1 /\ ~f.free[r]))))
+    /\ (\A v \in SeqSet(res.space) \ CplI(inst) : \A k \in 1..inst.size[v] :
+          (res.bounds[v].haslb[k] /\ res.bounds[v].hasub[k]))
+    /\ ((form.bnd = "fin") => (\A v \in SeqSet(res.space) : \A k \in 1..inst.size[v] :
+          (res.bounds[v].haslb[k] /\ res.bounds[v].hasub[k])))
+    /\ ((form.bnd = "open") => (\A v \in CplI(inst) : \A k \in 1..inst.size[v] :
+          (~res.bounds[v].haslb[k] /\ ~res.bounds[v].hasub[k])))
 
 SameFn(a, b, vs) == a.val = b.val /\ \A v \in vs : a.jac[v] = b.jac[v]
 
@@ -590,7 +691,7 @@ SameValues ==
         X == MDFSpace(inst, G)
     IN  \A k \in 1..NPts :
           LET m == MDFPoint(inst, X, XPt(inst, k))
-              i == IDFPoint(inst, G, form.norm, IDFAt(inst, G, XPt(inst, k), Deltas(inst)[1]))
+              i == IDFPoint(inst, G, form.norm, form.bnd, IDFAt(inst, G, XPt(inst, k), Deltas(inst)[1]))
           IN  /\ i.obj.val = m.obj.val
               /\ \A c \in 1..Len(inst.cons) : i.cons[i.ncc + c].val = m.cons[c].val
 
@@ -601,7 +702,7 @@ ConsistencyVanishes ==
     LET G == GSpace(inst, form.gsv)
         dls == Deltas(inst)
     IN  \A k \in 1..NPts : \A j \in 1..Len(dls) :
-          (AllZero(IDFPoint(inst, G, form.norm, IDFAt(inst, G, XPt(inst, k), dls[j]))) <=> (j = 1))
+          (AllZero(IDFPoint(inst, G, form.norm, form.bnd, IDFAt(inst, G, XPt(inst, k), dls[j]))) <=> (j = 1))
 
 (* ConsistentDerivatives: dMDF/dx = dIDF/dx - dIDF/dy (dc/dy)^-1 dc/dx at consistent couplings   *)
 (* (numerators: the row scaling of a normalised c cancels)                                        *)
@@ -619,7 +720,7 @@ ConsistentDerivatives ==
         row(r) == HCatAll(TLCEval([k \in 1..Len(X) |-> r.jac[X[k]]]))
     IN  \A k \in 1..NPts :
           LET m == MDFPoint(inst, X, XPt(inst, k))
-              i == IDFPoint(inst, G, form.norm, IDFAt(inst, G, XPt(inst, k), Deltas(inst)[1]))
+              i == IDFPoint(inst, G, form.norm, form.bnd, IDFAt(inst, G, XPt(inst, k), Deltas(inst)[1]))
           IN  /\ Reduced(inst, i, i.obj, X) = row(m.obj)
               /\ \A c \in 1..Len(inst.cons) : Reduced(inst, i, i.cons[i.ncc + c], X) = row(m.cons[c])
               /\ \A u \in Unused(inst, G) : IsZero(i.obj.jac[u])
@@ -643,7 +744,7 @@ FalseClaimSameValuesOffSolution ==
         X == MDFSpace(inst, G)
     IN  \A k \in 1..NPts : \A j \in 1..Len(Deltas(inst)) :
           LET m == MDFPoint(inst, X, XPt(inst, k))
-              i == IDFPoint(inst, G, form.norm, IDFAt(inst, G, XPt(inst, k), Deltas(inst)[j]))
+              i == IDFPoint(inst, G, form.norm, form.bnd, IDFAt(inst, G, XPt(inst, k), Deltas(inst)[j]))
           IN  i.obj.val = m.obj.val /\ \A c \in 1..Len(inst.cons) : i.cons[i.ncc + c].val = m.cons[c].val
 (* FALSE on purpose: the partial derivative of the IDF objective w.r.t. the design variables is  *)
 (* the MDF total derivative (i.e. the coupling term of ConsistentDerivatives is superfluous).    *)
@@ -653,8 +754,17 @@ FalseClaimPartialIsTotal ==
         X == MDFSpace(inst, G)
     IN  \A k \in 1..NPts :
           LET m == MDFPoint(inst, X, XPt(inst, k))
-              i == IDFPoint(inst, G, form.norm, IDFAt(inst, G, XPt(inst, k), Deltas(inst)[1]))
+              i == IDFPoint(inst, G, form.norm, form.bnd, IDFAt(inst, G, XPt(inst, k), Deltas(inst)[1]))
           IN  \A v \in SeqSet(X) : i.obj.jac[v] = m.obj.jac[v]
+
+(* FALSE on purpose: the couplings of the multidisciplinary solution at the DEFAULT inputs of the *)
+(* disciplines are an equilibrium start for the CURRENT design values of the design space (what   *)
+(* an MDA run without the current design values computes).                                        *)
+FalseClaimEquilibriumOfTheDefaults ==
+  (phase = "built" /\ form.F = "IDF" /\ inst.C # <<>>) =>
+    LET G == GSpace(inst, form.gsv)
+        st == TLCEval([v \in SeqSet(G) |-> IF v \in CplI(inst) THEN res.eq.dfl[v] ELSE inst.cur[v]])
+    IN  AllZeroC(IDFPoint(inst, G, form.norm, form.bnd, st))
 
 (* ResultsAreValues: what a formulation exposes at a point is a VALUE determined by the instance,  *)
 (* the formulation and that point alone - whatever was evaluated before or is evaluated later      *)
@@ -692,9 +802,8 @@ OptimumKnown ==
 
 ----------------------------------------------------------------------------
 (* records for the replay on the real classes                              *)
-KeyHash(k) == Idx(IF k[1] = "quad" THEN "a" ELSE "c") + k[2] * 3 + k[3] * 5 + k[4] * 7
 FormHash(f) == (IF f.F = "MDF" THEN 0 ELSE IF f.F = "IDF" THEN 1 ELSE IF f.F = "DOPT" THEN 2 ELSE 4)
-               + (IF f.gsv = "full" THEN 0 ELSE IF f.gsv = "nocpl" THEN 3 ELSE 5) + (IF f.norm THEN 1 ELSE 0)
+               + (IF f.gsv = "full" THEN 0 ELSE IF f.gsv = "nocpl" THEN 3 ELSE 5) + OptIdx(f.norm, f.eq, f.par, f.bnd)
 \* the MDA classes that reach y* on the slice: Newton solves the linear system in one step; the fixed-point
 \* sweeps terminate (exactly) iff B is nilpotent; MDANewtonRaphson as the main MDA refuses weakly coupled
 \* disciplines (documented), MDAChain delegates every strongly coupled group to the inner class
